@@ -191,6 +191,7 @@ def inline_call(ex, h: Inline, args, kwargs, st, text):
     ex.bindings = dict(saved_bind) if getattr(ex.spec, "bind_in_inlined", False) else {}
     ex.inline_depth += 1
     ex.fn_stack.append(h.qualname)
+    ex.register_loops(fn, h.qualname)
     try:
         outs = ex.exec_block(extract.strip_docstring(fn.body), st)
     finally:
@@ -269,6 +270,19 @@ def container_method(ex, recv: VRef, name, args, kwargs, st):
                 if ok:
                     v = ex._elem(bs.list_el(r, n - 1), ek, ecls, bs)
                     bs.list_store(r, bs.list_arr(r), z3.simplify(n - 1))
+                    out.append(Res("val", v, bs))
+                else:
+                    bs.trace.append("IndexError")
+                    out.append(Res("raise", "IndexError", bs))
+            return out
+        if name == "popleft" and not args:
+            # collections.deque.popleft: removes and returns the leftmost element
+            out = []
+            for ok, bs in ex.split(st, n > 0):
+                if ok:
+                    v = ex._elem(bs.list_el(r, 0), ek, ecls, bs)
+                    j = z3.Int("j!pl")
+                    bs.list_store(r, z3.Lambda([j], z3.Select(bs.list_arr(r), j + 1)), z3.simplify(n - 1))
                     out.append(Res("val", v, bs))
                 else:
                     bs.trace.append("IndexError")
@@ -475,6 +489,15 @@ def b_list(ex, st, args, kw):
     return [Res("val", ex.to_seq_value(v, st), st)]
 
 
+def b_set(ex, st, args, kw):
+    """set(): a fresh empty set object."""
+    if args:
+        raise Unsupported("set(iterable)")
+    r = st.new_object("set")
+    st.dict_store(r, z3.K(z3.IntSort(), z3.BoolVal(False)), z3.K(z3.IntSort(), z3.IntVal(0)))
+    return [Res("val", VRef(r, "set", ("set", "ref")), st)]
+
+
 def b_range(ex, st, args, kw):
     if len(args) == 1:
         return [Res("val", VRange(0, args[0]), st)]
@@ -518,7 +541,15 @@ def b_sum(ex, st, args, kw):
     raise Unsupported("sum over a symbolic-length sequence")
 
 
+def b_super(ex, st, args, kw):
+    """super() inside a method: the receiver itself; WHICH base-class method runs is fixed by the contract's callee table (text `super().m`)."""
+    if args or "self" not in st.env:
+        raise Unsupported("super() with arguments / outside a method")
+    return [Res("val", st.env["self"], st)]
+
+
 GLOBAL_BUILTINS = {
+    "super": b_super,
     "sum": b_sum,
     "len": b_len,
     "abs": b_abs,
@@ -535,6 +566,7 @@ GLOBAL_BUILTINS = {
     "tuple": b_tuple,
     "SSAValues": b_tuple,
     "list": b_list,
+    "set": b_set,
     "range": b_range,
     "zip": b_zip,
     "enumerate": b_enumerate,
@@ -554,11 +586,17 @@ def comprehension_call(ex, fname, e: ast.Call, st):
         if r.kind == "raise":
             out.append(r)
             continue
+        mark = (len(ex.obligations), ex.n_call)
         try:
             out += _comp_over(ex, fname, comp, gen, r.val, r.st.fork(), e)
         except Unsupported as u:
+            # the pure attempt is abandoned: nothing it recorded (obligations, call / loop ordinals) may survive
+            del ex.obligations[mark[0]:]
+            ex.n_call = mark[1]
             if fname in ("all", "any") and "impure" in str(u) and not gen.ifs:
                 out += _all_any_as_loop(ex, fname, comp, gen, r.st)
+            elif fname in ("list", "tuple") and "impure" in str(u) and not gen.ifs:
+                out += _listcomp_as_loop(ex, fname, comp, gen, r.st)
             else:
                 raise
     return out
@@ -577,6 +615,7 @@ def _all_any_as_loop(ex, fname, comp, gen, st):
     body = [ast.If(test=test, body=[ast.Assign(targets=[ast.Name(id=acc, ctx=ast.Store())], value=ast.Constant(value=not is_all)),
                                    ast.Break()], orelse=[])]
     loop = ast.For(target=gen.target, iter=gen.iter, body=body, orelse=[])
+    loop._loop_key = (ex.fn_stack[-1] if ex.fn_stack else "<main>", comp.lineno, comp.col_offset)
     init = ast.Assign(targets=[ast.Name(id=acc, ctx=ast.Store())], value=ast.Constant(value=is_all))
     mod = ast.Module(body=[init, loop], type_ignores=[])
     ast.fix_missing_locations(mod)
@@ -592,6 +631,36 @@ def _all_any_as_loop(ex, fname, comp, gen, st):
             out.append(Res("raise", o.val, o.st))
         else:
             raise Unsupported("control flow escaping all()/any()")
+    return out
+
+
+def _listcomp_as_loop(ex, fname, comp, gen, st):
+    """
+    [E for x in it] whose element has effects, over a symbolic-length iterable: desugared mechanically to
+        acc = [];  for x in it: acc.append(E)
+    with `acc` a fresh heap list (local name `__comp_acc`); the loop is cut at the invariant the contract gives for its ordinal.
+    """
+    acc = "__comp_acc"
+    r = st.new_object("list")
+    st.list_store(r, z3.K(z3.IntSort(), z3.IntVal(0)), z3.IntVal(0))
+    st.env[acc] = VRef(r, "list", ("list", "ref"))
+    call = ast.Expr(ast.Call(func=ast.Attribute(value=ast.Name(id=acc, ctx=ast.Load()), attr="append", ctx=ast.Load()), args=[comp.elt], keywords=[]))
+    loop = ast.For(target=gen.target, iter=gen.iter, body=[call], orelse=[])
+    loop._loop_key = (ex.fn_stack[-1] if ex.fn_stack else "<main>", comp.lineno, comp.col_offset)
+    mod = ast.Module(body=[loop], type_ignores=[])
+    ast.fix_missing_locations(mod)
+    for n in ast.walk(mod):
+        if not hasattr(n, "lineno"):
+            n.lineno = getattr(comp, "lineno", 0)
+    out = []
+    for o in ex.exec_block(mod.body, st):
+        if o.kind == "normal":
+            v = o.st.env.pop(acc)
+            out.append(Res("val", v, o.st))
+        elif o.kind == "raise":
+            out.append(Res("raise", o.val, o.st))
+        else:
+            raise Unsupported("control flow escaping a comprehension")
     return out
 
 
@@ -632,12 +701,24 @@ def _comp_over(ex, fname, comp, gen, itv, st, call):
         if len(rs) != 1 or rs[0].kind != "val" or len(rs[0].st.pc) != len(s2.pc):
             raise Unsupported("impure / branching comprehension filter over a symbolic sequence")
         conds.append(ex.truthy(rs[0].val, s2))
+    # purity is judged against a snapshot taken BEFORE the evaluation (callees mutate the state object in place)
+    heap0, ghost0, npc0 = dict(s2.heap), dict(s2.ghost), len(s2.pc)
     ex.pure_mode = True
     try:
         rs = ex.eval(comp.elt, s2)
     finally:
         ex.pure_mode = False
-    if len(rs) != 1 or rs[0].kind != "val" or len(rs[0].st.pc) != len(s2.pc) or rs[0].st.heap != s2.heap:
+
+    def _same(d0, d1):
+        for k, v in d1.items():
+            if k in d0:
+                if not (d0[k] is v or (hasattr(v, "eq") and hasattr(d0[k], "eq") and d0[k].eq(v))):
+                    return False
+            elif not (z3.is_const(v) and v.decl().name() == f"H0.{k}"):
+                return False  # (a field first touched by the element expression must still be its initial array: read, not written)
+        return all(k in d1 for k in d0)
+
+    if len(rs) != 1 or rs[0].kind != "val" or not _same(heap0, rs[0].st.heap) or not _same(ghost0, rs[0].st.ghost):
         # allow path splits that are pure (pc grew) by folding into an If is not attempted
         raise Unsupported("impure / branching comprehension element over a symbolic sequence")
     v = rs[0].val
